@@ -90,7 +90,7 @@ def body_tokens(src, fn):
     return lex(src[fn.body_start:fn.body_end])
 
 
-def derive_layout_copy(src, fn):
+def derive_layout_copy(src, fn, helpers=()):
     """spec copy of a map_keycode body: `.map_keycode(` -> `.spec_map(`, `<int>.into()` -> `(<int>u8 as char)`"""
     toks = body_tokens(src, fn)
     sigi = [k for k, t in enumerate(toks) if t.kind not in ('ws', 'lcomment', 'bcomment')]
@@ -101,6 +101,9 @@ def derive_layout_copy(src, fn):
         if t.kind == 'id' and t.text == 'map_keycode' and x > 0 and toks[sigi[x - 1]].text == '.':
             out[k] = 'spec_map'
             n_call += 1
+        if t.kind == 'id' and t.text in helpers and x + 1 < len(sigi) and toks[sigi[x + 1]].text == '(':
+            # call of an auto-derived helper: name its (public, ghost) denotation directly - the exec helper may be private
+            out[k] = 'spec_' + t.text
         if t.kind == 'id' and t.text == 'into' and x >= 2 and toks[sigi[x - 1]].text == '.' \
                 and toks[sigi[x - 2]].kind == 'num' and x + 2 < len(sigi) \
                 and toks[sigi[x + 1]].text == '(' and toks[sigi[x + 2]].text == ')':
@@ -228,6 +231,24 @@ def derive_pred_copy(src, fn):
     return '{ ' + expr(toks) + ' }'
 
 
+def auto_derivable(src, fn):
+    """a contract-less function whose body could be a spec expression: no mutation, early exit, loop, `?` or macro call"""
+    ptext = src[fn.params_span[0]:fn.params_span[1]]
+    if re.search(r'&\s*(\'\w+\s+)?mut\b', ptext) or fn.owner.startswith('trait ') or fn.owner.startswith('Default for '):
+        return False
+    toks = [t for t in body_tokens(src, fn) if t.kind not in ('ws', 'lcomment', 'bcomment')]
+    for i, t in enumerate(toks):
+        if t.kind == 'id' and t.text in ('mut', 'return', 'loop', 'while', 'for', 'unsafe', 'break', 'continue', 'async', 'await', 'move'):
+            return False
+        if t.kind == 'p' and t.text == '?':
+            return False
+        if t.kind == 'p' and t.text == '!' and i > 0 and toks[i - 1].kind == 'id' and i + 1 < len(toks) and toks[i + 1].text in '([{':
+            return False   # macro invocation
+        if t.kind == 'p' and t.text == '|' and i + 1 < len(toks) and (toks[i + 1].kind == 'id' or toks[i + 1].text == '|') and i > 0 and toks[i - 1].text in ('=', '(', ','):
+            return False   # closure
+    return True
+
+
 # ---------------------------------------------------------------------------- the generator
 
 class GenInfo:
@@ -306,6 +327,14 @@ def render_file(path, module, moddir, ctx):
             edits.append(Edit(0, 0, '/*@GHOST:%s@*/\n%s\n/*@ENDGHOST@*/\n' % (g.src, g.text), prio=-1))
             info.used_ghosts.add(gi)
 
+    # contract-less pure helpers of this file (their calls inside derived copies name the denotation directly)
+    for f in sc.fns:
+        if any(a <= f.start < e for a, e in sc.drop_spans):
+            continue
+        if f.has_body and f.key not in fncontracts and f.ret_span and not f.owner.startswith('KeyboardLayout for ') \
+                and not (f.owner in ('ScancodeSet1', 'ScancodeSet2') and f.name.startswith('map_')) and f.owner != 'Modifiers' \
+                and f.key not in ctx.get('opaque', ()) and auto_derivable(src, f):
+            ctx['helpers'].add(f.name)
     # functions
     for f in sc.fns:
         if any(a <= f.start < e for a, e in sc.drop_spans):
@@ -339,7 +368,7 @@ def render_file(path, module, moddir, ctx):
             # a body the derivation rules cannot translate is treated like one the verifier cannot read
             try:
                 if f.owner.startswith('KeyboardLayout for ') and f.name == 'map_keycode':
-                    derive_layout_copy(src, f)
+                    derive_layout_copy(src, f, ctx['helpers'])
                 elif f.owner == 'Modifiers' and f.name.startswith('is_') and not names:
                     derive_pred_copy(src, f)
             except ExtractError as e:
@@ -365,7 +394,7 @@ def render_file(path, module, moddir, ctx):
                 clauses.append(('ensures', key + '/assumed', '%s == self.spec_map(%s)' % (ret, ', '.join(names))))
             info.obligations[key + '/assumed'] = {'kind': 'assumed', 'props': [], 'fn': key, 'text': 'opaque: function outside the verifier\'s dialect, left unverified'}
         elif f.has_body and f.owner.startswith('KeyboardLayout for ') and f.name == 'map_keycode':
-            copy, stats = derive_layout_copy(src, f)
+            copy, stats = derive_layout_copy(src, f, ctx['helpers'])
             spec_sig = src[f.sig_start:f.sig_end]
             k0 = spec_sig.index('fn map_keycode')
             spec_sig = spec_sig[:k0] + 'open spec fn spec_map' + spec_sig[k0 + len('fn map_keycode'):]
@@ -389,6 +418,23 @@ def render_file(path, module, moddir, ctx):
             clauses.append(('ensures', oid, '%s == self.spec_%s()' % (ret, f.name)))
             info.obligations[oid] = {'kind': 'assumed', 'props': [], 'fn': key, 'text': 'external_body: real predicate == derived copy (discharged by Kani on the compiled crate)'}
             info.derived.append({'fn': key, 'kind': 'predicate', 'copy': copy.strip()})
+        elif f.has_body and not c and f.ret_span and key not in ctx.get('no_auto', ()) and auto_derivable(src, f):
+            # a function nobody wrote a contract for (typically a helper a refactoring extracted): if its body is a pure
+            # expression it gets a derived denotation like the layouts and tables, so that callers can still be decided
+            try:
+                copy, stats = derive_layout_copy(src, f, ctx['helpers'])
+            except ExtractError:
+                copy = None
+            if copy is not None:
+                rettype = src[f.ret_span[0]:f.ret_span[1]]
+                ptext = src[f.params_span[0] + 1:f.params_span[1]].strip()
+                selfcall = 'self.' if re.match(r'^&\s*self\b|^self\b', ptext) else ('Self::' if f.owner and not f.owner.startswith('trait ') else '')
+                pre_items = '/*@DERIVED:%s@*/\n    pub open spec fn spec_%s(%s) -> %s %s\n/*@ENDDERIVED@*/\n    ' % (key, f.name, ptext, rettype, copy)
+                attrs += ['#[verifier::when_used_as_spec(spec_%s)]' % f.name]
+                oid = key + '/derived'
+                clauses.append(('ensures', oid, '%s == %sspec_%s(%s)' % (ret, selfcall, f.name, ', '.join(names))))
+                info.obligations[oid] = {'kind': 'derived', 'props': [], 'fn': key, 'text': 'exec body == derived spec copy (auto-derived helper)'}
+                info.derived.append({'fn': key, 'kind': 'helper'})
 
         # vacuity probe (thorough tier): `assert(false)` at the entry of the real body must be REJECTED, i.e. the
         # precondition is satisfiable (an `ensures false` would be assumed by callers and hide their probes)
@@ -460,7 +506,7 @@ CELL = re.compile(r'//\s*CELL\s+(.+?)\s*$')
 def generate(repo, contracts_dir, lemma_texts=(), out_path=None, opaque=(), probe=False):
     fncontracts, ghosts = vspec.load_dir(contracts_dir)
     info = GenInfo()
-    ctx = {'info': info, 'fncontracts': fncontracts, 'ghosts': ghosts, 'repo': repo, 'opaque': set(opaque), 'probe': probe}
+    ctx = {'info': info, 'fncontracts': fncontracts, 'ghosts': ghosts, 'repo': repo, 'opaque': set(opaque), 'probe': probe, 'helpers': set()}
     srcdir = os.path.join(repo, 'src')
     body = render_file(os.path.join(srcdir, 'lib.rs'), '', srcdir, ctx)
     # lost anchors: contracts / ghost sections whose item no longer exists. They are recorded, not fatal: the caller
